@@ -185,7 +185,14 @@ pub fn gen(_tier: &str, rng: &mut Rng, emit: &mut dyn FnMut(String)) {
     .into_iter()
     .map(String::from)
     .collect();
-    while texts.len() < 60 {
+    // long texts: equal up to byte 127 / 128 / 129 / 255 / 256 and differing after, equal long texts, length-only differences
+    let base: String = format!("/{}", "abcdefghij".repeat(60));
+    for cut in [126usize, 127, 128, 129, 130, 255, 256, 257, 400] {
+        texts.push(base[..cut].to_string());
+        texts.push(format!("{}X", &base[..cut]));
+        texts.push(format!("{}/y", &base[..cut]));
+    }
+    while texts.len() < 87 {
         let k = rng.below(4);
         texts.push((0..k).map(|_| format!("/{}", crate::oracles::rfc_escape(&super::token::random_text(rng, 3)))).collect());
     }
